@@ -24,7 +24,7 @@ def _m_overread(dev):
 MATCHERS = {"C15-deserialize-truncated-overread": _m_overread}
 
 
-def lifecycle_part(ev, fnd, unknown, part, cfg, slots, bins, shards):
+def lifecycle_part(ev, fnd, unknown, part, cfg, slots, bins, shards, per_state=None):
     r = vf.tlc("MC_Lifecycle", cfg, workers=1, timeout=1100)
     if r.violation:
         unknown.append({"kind": "model", "tlc": r.violation})
@@ -35,7 +35,8 @@ def lifecycle_part(ev, fnd, unknown, part, cfg, slots, bins, shards):
     work = os.path.join(vf.BUILD, "work", "%s_%s_%d" % (PROP, part, os.getpid()))
     env = dict(ASAN_ENV)
     env["VF_SLOTS"] = str(slots)
-    summ, devs, crashes, nb = vf.replay(g, bins, work, env=env, shards=shards, rnd=random.Random(vf.seed()), walks=200, walk_len=20)
+    summ, devs, crashes, nb = vf.replay(g, bins, work, env=env, shards=shards, rnd=random.Random(vf.seed()), walks=100, walk_len=20,
+                                        max_edges_per_state=per_state, timeout=3000)
     ev.parts[part]["replay"] = {"behaviours_in_cover": nb, "configs": summ, "sanitizers": "address,undefined"}
     os.remove(r.outfile)
     for c in crashes:
@@ -127,7 +128,10 @@ def main(tier):
             for g in (0, 1)]
     bins = vf.build_many(jobs)
     total = 0
-    total += lifecycle_part(ev, fnd, unknown, "lifecycle_tree_2slots", "MC_Lifecycle_tree2.cfg", 2, bins, 4)
+    # the sanitized replay is slow (ASan, one fork per wrong-length deserialize): quick samples the outgoing edges
+    # of every state of the 2-slot graph, thorough replays all 142 380 of them
+    total += lifecycle_part(ev, fnd, unknown, "lifecycle_tree_2slots", "MC_Lifecycle_tree2.cfg", 2, bins, 6,
+                            per_state=3 if tier == "quick" else None)
     total += lifecycle_part(ev, fnd, unknown, "lifecycle_tree_3slots", "MC_Lifecycle_tree3.cfg", 3, bins, 2)
     total += sanitized_other_drivers(ev, unknown, tier)
     total += threads_part(ev, unknown, tier)
